@@ -9,7 +9,9 @@ import (
 	"os/exec"
 	"path/filepath"
 	"runtime"
+	"strings"
 	"sync"
+	"syscall"
 	"testing"
 	"time"
 
@@ -53,28 +55,29 @@ type SeedSpec struct {
 }
 
 type Case struct {
-	Pieces   []gen.Piece `json:"pieces"`
-	Sizes    gen.Sizes   `json:"sizes"`
-	Tiling   []int       `json:"tiling,omitempty"`
-	Seeds    []SeedSpec  `json:"seeds,omitempty"`
-	Prior    string      `json:"prior"` // absent empty garbage longer shorter older exact
-	PriorA   int         `json:"prior_a"`
-	PriorEd  []Edit      `json:"prior_edits,omitempty"`
-	Action   int         `json:"action"` // 0 bail-out 1 skip 2 regenerate
-	N        int         `json:"n"`
-	Clone    bool        `json:"clone"`
-	Missing  []int       `json:"missing,omitempty"`  // chunk numbers removed from the store
-	FailGet  []int       `json:"fail_get,omitempty"` // GetChunk call numbers that fail
-	Incons   string      `json:"incons,omitempty"`   // "" size-shift id-other
-	InconsA  int         `json:"incons_a,omitempty"`
-	InconsD  int         `json:"incons_d,omitempty"`
-	Perturb  []int       `json:"perturb,omitempty"`
-	AliasLonger bool     `json:"alias_longer,omitempty"` // directed: the only seed is the target itself, whose old content is the blob behind an inserted prefix
-	ZeroTail bool        `json:"zero_tail,omitempty"` // directed: identical seed truncated inside the blob's zero tail
-	SeedDir  int         `json:"seed_dir,omitempty"`  // CLI: >0 = index, previous blob and seeds live in one directory given as --seed-dir, index and directory spelled differently (1 rel dir/abs index, 2 abs dir/rel index, 3 dotted, 4 same)
-	MidRun   *MidRun     `json:"midrun,omitempty"`    // a seed file is modified after validation, while assembling
-	CLI      bool        `json:"cli,omitempty"`       // also drive `desync extract` (needs $VERIF_DESYNC_BIN)
-	Inplace  bool        `json:"inplace,omitempty"`   // CLI: -k
+	Pieces      []gen.Piece `json:"pieces"`
+	Sizes       gen.Sizes   `json:"sizes"`
+	Tiling      []int       `json:"tiling,omitempty"`
+	Seeds       []SeedSpec  `json:"seeds,omitempty"`
+	Prior       string      `json:"prior"` // absent empty garbage longer shorter older exact
+	PriorA      int         `json:"prior_a"`
+	PriorEd     []Edit      `json:"prior_edits,omitempty"`
+	Action      int         `json:"action"` // 0 bail-out 1 skip 2 regenerate
+	N           int         `json:"n"`
+	Clone       bool        `json:"clone"`
+	Missing     []int       `json:"missing,omitempty"`  // chunk numbers removed from the store
+	FailGet     []int       `json:"fail_get,omitempty"` // GetChunk call numbers that fail
+	Incons      string      `json:"incons,omitempty"`   // "" size-shift id-other
+	InconsA     int         `json:"incons_a,omitempty"`
+	InconsD     int         `json:"incons_d,omitempty"`
+	Perturb     []int       `json:"perturb,omitempty"`
+	CloneRefuse []int       `json:"clone_refuse,omitempty"` // block cloning on: the n-th clone calls whose source is a seed file (or the target) are refused (EXDEV/EPERM/ETXTBSY by n); clones from the null-chunk block file are never refused (desync has no fallback there and the statement promises none)
+	AliasLonger bool        `json:"alias_longer,omitempty"` // directed: the only seed is the target itself, whose old content is the blob behind an inserted prefix
+	ZeroTail    bool        `json:"zero_tail,omitempty"`    // directed: identical seed truncated inside the blob's zero tail
+	SeedDir     int         `json:"seed_dir,omitempty"`     // CLI: >0 = index, previous blob and seeds live in one directory given as --seed-dir, index and directory spelled differently (1 rel dir/abs index, 2 abs dir/rel index, 3 dotted, 4 same)
+	MidRun      *MidRun     `json:"midrun,omitempty"`       // a seed file is modified after validation, while assembling
+	CLI         bool        `json:"cli,omitempty"`          // also drive `desync extract` (needs $VERIF_DESYNC_BIN)
+	Inplace     bool        `json:"inplace,omitempty"`      // CLI: -k
 }
 
 func applyEdits(b []byte, eds []Edit) []byte {
@@ -277,6 +280,25 @@ func genCase(t *rapid.T) Case {
 		c.Missing, c.FailGet, c.Incons = nil, nil, ""
 		c.AliasLonger = true
 	}
+	if c.Clone && len(c.Seeds) > 0 && rapid.IntRange(0, 3).Draw(t, "clonerefuse") == 0 {
+		for i, k := 0, rapid.IntRange(1, 3).Draw(t, "nrefuse"); i < k; i++ {
+			c.CloneRefuse = append(c.CloneRefuse, rapid.IntRange(1, 8).Draw(t, "refuseat"))
+		}
+	}
+	if !c.ZeroTail && !c.AliasLonger && blobLen > 0 && rapid.IntRange(0, 15).Draw(t, "shiftedseed") == 0 {
+		// an older version that holds the blob's data shifted by whole blocks (a header of k blocks removed/added), chunks
+		// larger than a block, block cloning announced - and refused for some of the calls
+		c.Sizes = rapid.SampledFrom([]gen.Sizes{{Min: 2048, Avg: 4096, Max: 8192}, {Min: 4100, Avg: 8192, Max: 16384}, {Min: 5000, Avg: 9000, Max: 20000}}).Draw(t, "shsizes")
+		c.Tiling = nil
+		c.Pieces = []gen.Piece{{Kind: "rand", Len: int(c.Sizes.Max) * rapid.IntRange(2, 8).Draw(t, "shmult"), Seed: rapid.Uint64().Draw(t, "shseed")}}
+		c.Seeds = []SeedSpec{{Kind: "edit", Edits: []Edit{{At: 0, Del: 0, Ins: 4096 * rapid.IntRange(1, 3).Draw(t, "shblocks"), Seed: rapid.Uint64().Draw(t, "shins")}}}}
+		c.Clone = true
+		c.CloneRefuse = nil
+		for i, k := 0, rapid.IntRange(0, 3).Draw(t, "shnrefuse"); i < k; i++ {
+			c.CloneRefuse = append(c.CloneRefuse, rapid.IntRange(1, 4).Draw(t, "shrefuseat"))
+		}
+		c.Missing, c.FailGet, c.Incons = nil, nil, ""
+	}
 	if len(c.Seeds) > 0 && !c.AliasLonger && rapid.IntRange(0, 5).Draw(t, "midrun") == 0 {
 		c.MidRun = &MidRun{Seed: rapid.IntRange(0, 3).Draw(t, "mrseed"), Chunk: rapid.IntRange(0, 1<<16).Draw(t, "mrchunk"),
 			Zero: rapid.Bool().Draw(t, "mrzero"), Fill: byte(rapid.IntRange(1, 255).Draw(t, "mrfill")),
@@ -373,6 +395,26 @@ func run(c Case) (o hx.Outcome) {
 	aliasSeed, missingSeed, emptySeed, staleSeed, inplaceSeed, unopenableSeed := false, false, false, false, false, false
 	var aliasData []byte
 	emu := cloneemu.New(c.Clone)
+	if c.Clone && len(c.CloneRefuse) > 0 {
+		var rmu sync.Mutex
+		seedCalls := 0
+		emu.Refuse = func(src string, _ int) error {
+			b := filepath.Base(src)
+			if !strings.HasPrefix(b, "seed") && b != "target" {
+				return nil // the null-chunk block file
+			}
+			rmu.Lock()
+			seedCalls++
+			n := seedCalls
+			rmu.Unlock()
+			for _, k := range c.CloneRefuse {
+				if k == n {
+					return []error{syscall.EXDEV, syscall.EPERM, syscall.ETXTBSY}[n%3]
+				}
+			}
+			return nil
+		}
+	}
 	desync.VerifClone = emu
 	defer func() { desync.VerifClone = nil }()
 	for i, s := range c.Seeds {
@@ -665,6 +707,12 @@ func run(c Case) (o hx.Outcome) {
 			}
 		}
 	}
+	if emu.Refused > 0 {
+		o.Class("clone-refused")
+		if err == nil {
+			o.Class("clone-refused:success")
+		}
+	}
 	if aliasSeed {
 		o.Class("alias-seed")
 		if len(aliasData) > len(blob) {
@@ -765,7 +813,7 @@ var spec = &hx.Spec[Case]{
 		"oracle: nil error => file length == index length and every range hashes to its ID (== blob); complete store + consistent or skippable/regenerable seeds => nil error; never hang/panic. " +
 		"non-trivial = at least one chunk came from a seed, was found in place, or bytes were cloned; distinct by (content hash, sizes, seed kinds, prior, action, n, clone, inconsistency)",
 	Assumptions: []string{"block cloning is emulated in-process (rules of fs/remap_range.c), real reflink filesystems are not available", "worker interleavings perturbed at hook sites, not enumerated", "chunk IDs recomputed with crypto/sha512"},
-	Required: []string{"null-run>100-chunks", "null-run>100-chunks:no-clone", "alias-seed:old-version-longer", "alias-seed:longer-old-version:liveness-demanded", "action:bailout", "action:skip", "action:regenerate", "prior:absent", "prior:empty", "prior:garbage", "prior:longer", "prior:shorter", "prior:older", "prior:exact",
+	Required: []string{"clone-refused", "clone-refused:success", "null-run>100-chunks", "null-run>100-chunks:no-clone", "alias-seed:old-version-longer", "alias-seed:longer-old-version:liveness-demanded", "action:bailout", "action:skip", "action:regenerate", "prior:absent", "prior:empty", "prior:garbage", "prior:longer", "prior:shorter", "prior:older", "prior:exact",
 		"empty-blob", "empty-seed", "alias-seed", "stale-seed", "unopenable-seed", "seed-changed-mid-run", "seed-truncated-mid-run", "stale-seed:truncated-inside-zero-tail", "clone-on:max<block", "clone-on:min>block", "clone-on:inplace-seed", "clone-on:isolated-small-null-chunk",
 		"chunks-from-seed", "chunks-in-place", "bytes-cloned", "liveness-demanded", "inconsistent-index:size-shift"},
 	// (with $VERIF_DESYNC_BIN: TestMain adds the CLI classes)
